@@ -2288,7 +2288,7 @@ class Engine:
     def merge_simple_if(self, node, s1, t, ctx):
         """if-conversion: `if c: x = CONST; self.f = CONST` (no else, constants only) is executed without forking -- every variable / heap cell becomes
         ite(c, new, old).  Returns False (nothing changed) when the statement does not have that shape."""
-        if node.orelse or not node.body:
+        if node.orelse or not node.body or self.contract is None or not self.contract.merge_ifs:
             return False
 
         def const(v):
